@@ -46,8 +46,13 @@ fn crash_class(input: &str) -> String {
             _ => {}
         }
     }
+    let operators = input.chars().filter(|c| matches!(c, '+' | '*' | '/' | '^' | '-')).count();
     if max >= 1000 {
         "bracket-nesting>=1000".to_string()
+    } else if operators >= 1000 {
+        // a flat chain of infix operators builds a left-deep expression tree (by iteration, not by
+        // parser recursion); dropping / hashing that tree recurses once per operator
+        "operator-chain>=1000".to_string()
     } else {
         format!("bracket-nesting<1000,len={}", if input.len() >= 100_000 { ">=100k" } else { "<100k" })
     }
@@ -268,6 +273,7 @@ fn run(ctx: &mut Ctx) {
     }
 
     // (e) nesting / size stress; each case may kill the process, the supervisor restarts after it
+    ctx.checkpoint();
     let depths: &[usize] = match tier {
         // (error rendering in Instruction::from_str is quadratic in the input size, ~5 s at 20 000
         // levels, so the deepest cases are bounded to keep clear of the watchdog)
@@ -280,9 +286,24 @@ fn run(ctx: &mut Ctx) {
             if !ctx.mine(idx) {
                 continue;
             }
-            let input = nested(kind, depth);
+            // flat operator chains (kinds 4, 5) parse without error, so they are cheap: go 10x longer
+            let input = nested(kind, if kind == 4 || kind == 5 { depth * 10 } else { depth });
             let before = ctx.evaluations;
-            feed(ctx, &input, "workload:nesting-stress");
+            // Deeply nested inputs are parsed on a thread with a small (512 KiB) stack: recursion
+            // that is not bounded by the parser's own nesting limit then exhausts the stack at a
+            // few thousand levels (the process dies and the supervisor attributes it to this case),
+            // while a parser that bounds its recursion needs only a few tens of KiB.
+            std::thread::scope(|scope| {
+                let handle = std::thread::Builder::new()
+                    .stack_size(512 * 1024)
+                    .spawn_scoped(scope, || feed(ctx, &input, "workload:nesting-stress"));
+                match handle {
+                    Ok(h) => {
+                        let _ = h.join();
+                    }
+                    Err(_) => {}
+                }
+            });
             if ctx.evaluations > before {
                 ctx.max(&format!("nesting-depth-returned:kind{kind}"), depth as u64);
             }
